@@ -230,6 +230,23 @@ def cases(rng, tier):
         out.append(Case('perfect_power', line('perfect_power', n), oracle=o_pp(n), tag='pp-random'))
         kk = rng.choice([1, 2, 3, k, k + 1])
         out.append(Case('is_perfect_power', line('is_perfect_power', n, kk), tag='ipp'))
+    # the helper itself on the degenerate arguments n = 0, 1 (every k) and small n: exact k-th root or None (independent oracle)
+    def o_ipp(n, k):
+        def orc(ia):
+            lo, hi = 0, max(1, n)
+            r = None
+            for b_ in range(0, min(n, 1 << 12) + 1):
+                if b_ ** k == n: r = b_; break
+                if b_ ** k > n: break
+            exp = [Id('some'), r] if r is not None else Id('none')
+            if ia.kind != 'ok' or ia.val != exp: return 'is_perfect_power(%d, %d) = %s, expected %s' % (n, k, ia.raw[:60], exp)
+            return None
+        return orc
+    for n in (0, 1, 2, 4, 8, 9, 16, 27, 64, 81, 100, 1024):
+        for k in (1, 2, 3, 4, 5, 6, 10, 64):
+            out.append(Case('is_perfect_power', line('is_perfect_power', n, k), oracle=o_ipp(n, k), always_oracle=True, tag='ipp-small'))
+    for k in (0, 1, 2, 5, 30):
+        out.append(Case('primes_iter_default', line('primes_iter_default', k), oracle=o_primes_iter(k), always_oracle=True, nontrivial=k >= 1, tag='primes_iter-default'))
     # small bases with EVERY exponent in a range (a cap on the exponent search that is slightly too low shows only for
     # particular (base, exponent) pairs, e.g. 3^17)
     for b in (2, 3, 5, 6, 7, 10, 12):
